@@ -827,12 +827,12 @@ class RestartAndStoredEnergies:
             return {f.name: float(getattr(scf.energies, f.name)) for f in dataclasses.fields(scf.energies)}
 
         # (a) smeared, restart with each scheme
-        cell = Cell("Li", "bcc", ecut=5, a=3.44, smearing=5e-3, bands=3)
+        cell = Cell("Li", "bcc", ecut=5, a=3.44, smearing=5e-3, bands=3, unrestricted=False)  # spin-paired with an odd electron count: a half-filled band, entropy term != 0
         scf = SCF(cell, etol=etol, opt={"auto": 100}, verbose="critical")
         e_first = float(scf.run())
         f_first = fields(scf)
-        if not scf.is_converged:
-            raise RuntimeError("harness: the smeared reference run did not converge")
+        if not scf.is_converged or abs(f_first["Eentropy"]) < 1e-4:
+            raise RuntimeError("harness: the smeared reference run did not converge or has no entropy term")
         for m in ("pccg", "auto", "cg", "pclm", "sd"):
             scf.opt = {m: 50}
             e = float(scf.run())
